@@ -664,6 +664,44 @@ def check_mapalign(res, facts):
         rule.bad("ark_ec|HashMapPippenger", "anchor missing: no msm call in HashMapPippenger")
 
 
+def check_scalarcarry(res, facts, shapes):
+    """The MSM entry points take scalars as canonical big integers (< r) and decompose exactly MODULUS_BIT_SIZE bits.  Code in
+    the MSM layer that does big-integer arithmetic on buffered scalars (merging, accumulating) and drops the carry / borrow
+    flag can leave a value >= 2^bits(r) or a wrapped one: bits above the decomposed width are lost.  Expected matches: none."""
+    from rules.c02 import _local_uses
+    rule = res.rule("R-SCALARCARRY", "MSM layer (ark_ec::scalar_mul::variable_base): no big-integer addition / subtraction / doubling of scalars whose carry or borrow flag is discarded", 2)
+    NAMES = ("add_with_carry", "sub_with_borrow", "mul2", "muln")
+
+    def hits(fn):
+        out, uses = [], None
+        for bb, t in fn.calls():
+            n = t["f"].get("name")
+            if n not in NAMES:
+                continue
+            uses = uses or _local_uses(fn)
+            d = t["d"] if isinstance(t.get("d"), int) else None
+            flagged = n in ("add_with_carry", "sub_with_borrow", "mul2")
+            if flagged and d != 0 and (d is None or uses[d] == 0):
+                out.append(n)
+        return out
+    w = {}
+    for fn in shapes.fns(unit="shapes"):
+        if fn.name in ("dropped_bigint_carry", "dropped_bigint_carry_ok"):
+            w[fn.name] = bool(hits(fn))
+    n_fns = 0
+    for fn in facts.fns(unit="ws", crate="ark_ec"):
+        if "scalar_mul::variable_base" not in fn.id or "::tests::" in fn.id:
+            continue
+        n_fns += 1
+        for n in hits(fn):
+            rule.bad("ark_ec|%s|%s" % (fn.id[-90:], n), "`%s` on a buffered scalar with the carry flag dropped: the sum of two canonical scalars can reach 2^bits(r), above the MODULUS_BIT_SIZE bits the bucket method decomposes -- the top bit is lost" % n, fn.loc)
+    if w.get("dropped_bigint_carry") is True and w.get("dropped_bigint_carry_ok") is False:
+        rule.ok("witness|dropped_bigint_carry", "positive example matched, flag-returning twin accepted")
+        rule.ok("witness|scan", "%d functions of the MSM layer scanned" % n_fns)
+    else:
+        rule.bad("witness|dropped_bigint_carry", "the positive example in /verif/witness/shapes was not matched (or its twin was): rule has gone blind (%s)" % w)
+
+
 def _defer(res, rule_name, proved, why):
     """template rules on the kernels' shape: once R-MSM.value has proved both kernels on its scalar families, a body that no
     longer matches the template (or can no longer be followed) is not a violation by itself -- the value is decided"""
@@ -708,6 +746,7 @@ def run(ctx, res):
     res.rule = _orig_rule
     check_digitalign(res, facts)
     check_mapalign(res, facts)
+    check_scalarcarry(res, facts, ctx.facts(["shapes"]))
     return {
         "level": "other",
         "explanation": "Typestate / pairing rules over the MIR of ark-ec's variable-base MSM and streaming Pippenger code (serial and parallel configurations): lock-step mutation of paired buffers, length policy of checked and unchecked entry points, flush/finalize structure, window recombination. Does NOT decide that any entry point returns the sum (digit extraction and bucket indexing are run-time index arithmetic).",
